@@ -49,7 +49,6 @@ func mirrorSFlowDispatcher(ch chan SFUDPMsg) {
 		}
 	}
 
-	sFlowMirrorEnabled = true
 	logger.Printf("sflow mirror service is running (workers#: %d) ...", opts.SFlowMirrorWorkers)
 
 	for {
